@@ -2,6 +2,9 @@
 #define BLUETOE_WRITE_QUEUE_HPP
 
 #include <cstdint>
+#ifdef BLUETOE_VERIF_HOOKS
+#include <bluetoe/verif_hooks.hpp>
+#endif
 #include <cstddef>
 #include <cassert>
 #include <utility>
@@ -99,7 +102,11 @@ namespace details {
         std::size_t read_size( std::uint8_t* ) const;
 
         void*           current_client_;
+#ifdef BLUETOE_VERIF_HOOKS
+        verif_hooks::guarded_array< S > buffer_;
+#else
         std::uint8_t    buffer_[ S ];
+#endif
         std::uint16_t   buffer_end_;
     };
 
